@@ -108,6 +108,29 @@ func (c *c10) Summary(w *sim.World) (string, []string) {
 var C10 = register(&HistProp{ID: "C10",
 	Genesis: func(t *rapid.T) *sim.GenSpec { return sim.DrawGenesis(t, sim.GenOpts{}) },
 	Next: func(g *sim.G, i int) *sim.Op {
+		// right after a role moved: the previous holder (and the new one) try an action of that role
+		if n := len(g.W.Steps); n > 0 && g.Pct("followup", 50) {
+			last := g.W.Steps[n-1]
+			if last.Op.Kind == "tx" && last.OK() && last.Pre != nil {
+				for slot := 0; slot < 4; slot++ {
+					if last.Pre.Roles[slot] != g.W.Model.Roles[slot] || (len(last.Msgs) == 1 && isRoleMsg(last.Msgs[0])) {
+						var types []string
+						for _, t := range sim.AdminTypes {
+							if sim.RoleSlotOf(t) == slot {
+								types = append(types, t)
+							}
+						}
+						by := last.Pre.Roles[slot]
+						if g.Bool("newholder") {
+							by = g.W.Model.Roles[slot]
+						}
+						if sim.AcctOfBytes(sdk.MustAccAddressFromBech32(by)) >= 0 {
+							return g.AdminOpOf("followup", sim.Pick(g, "ftype", types), by)
+						}
+					}
+				}
+			}
+		}
 		if g.Pct("rolechange", 35) {
 			return g.AdminOp("role", 80, []string{"UpdateOwner", "AcceptOwner", "UpdateAttesterManager", "UpdatePauser", "UpdateTokenController"})
 		}
@@ -839,7 +862,7 @@ func RunC13Closure(t *testing.T) {
 			for k := 0; k < 4; k++ {
 				cells = append(cells, c13cell{s.set, s.thr, "enable", k, mgr}, c13cell{s.set, s.thr, "disable", k, mgr})
 			}
-			for a := 0; a <= 5; a++ {
+			for _, a := range []int{0, 1, 2, 3, 4, 5, 1<<31 - 1, 1 << 31, 1<<31 + 1, 1<<31 + 4, 1<<31 + 5, 1<<32 - 1} {
 				cells = append(cells, c13cell{s.set, s.thr, "update", a, mgr})
 			}
 		}
